@@ -163,12 +163,23 @@ func CanonStruct(m proto.Message) (s string, err error) {
 			err = fmt.Errorf("struct walk: %v", r)
 		}
 	}()
+	return CanonStructDesc(m, m.ProtoReflect().Descriptor())
+}
+
+// CanonStructDesc is CanonStruct with the descriptor supplied by the caller,
+// so that not even ProtoReflect() of the generated type is called.
+func CanonStructDesc(m proto.Message, md protoreflect.MessageDescriptor) (s string, err error) {
+	defer func() {
+		if r := recover(); r != nil {
+			err = fmt.Errorf("struct walk: %v", r)
+		}
+	}()
 	v := reflect.ValueOf(m)
 	if v.Kind() != reflect.Pointer || v.IsNil() {
 		return "", fmt.Errorf("not a non-nil pointer")
 	}
 	var b strings.Builder
-	if err := canonStructMsg(&b, v, m.ProtoReflect().Descriptor()); err != nil {
+	if err := canonStructMsg(&b, v, md); err != nil {
 		return "", err
 	}
 	return b.String(), nil
